@@ -378,7 +378,8 @@ func vfCloneMake(scn string) (func(), func(*vsched.Exec) (string, *vsched.Violat
 		orig := NewFContext("cid0")
 		orig.AddRequestHeader("a", "a0").AddResponseHeader("a", "ra0")
 		orig.(FContextWithEphemeralProperties).AddEphemeralProperty("a", "ea0")
-		orig.SetTimeout(1234 * time.Millisecond)
+		// whole and fractional milliseconds: whatever the original reports, the clone must report too
+		orig.SetTimeout([]time.Duration{1234 * time.Millisecond, 1500 * time.Microsecond, 2*time.Second + time.Nanosecond, 250 * time.Microsecond}[vsched.Choose(4)])
 		// mutate the original once before cloning so the clone starts from a non-initial state
 		pre := vsched.Choose(3)
 		switch pre {
@@ -447,8 +448,18 @@ func vfCloneMake(scn string) (func(), func(*vsched.Exec) (string, *vsched.Violat
 				w.AddEphemeralProperty(m.k, v)
 				refs[m.side].eph[m.k] = v
 			case "to":
-				c.SetTimeout(time.Duration(77+step) * time.Millisecond)
+				other := ctxs[1-m.side].Timeout()
+				c.SetTimeout(time.Duration(77+step)*time.Millisecond + 300*time.Microsecond)
 				refs[m.side].req[timeoutHeader] = strconv.Itoa(77 + step)
+				if ctxs[1-m.side].Timeout() != other {
+					bad = fmt.Sprintf("after %s the timeout of the other side changed from %s to %s", trace, other, ctxs[1-m.side].Timeout())
+					return
+				}
+				// a further clone of the side just changed reports the same timeout as that side
+				if cc := Clone(c); cc.Timeout() != c.Timeout() {
+					bad = fmt.Sprintf("after %s a clone reports timeout %s, its source %s", trace, cc.Timeout(), c.Timeout())
+					return
+				}
 			}
 			for side := 0; side < 2; side++ {
 				got := snap(ctxs[side])
